@@ -145,14 +145,18 @@ func verifyCascadingFields(
 		return fmt.Errorf("invalid gasUsed: have %d, gasLimit %d", header.GasUsed, header.GasLimit)
 	}
 
-	// Verify that the gas limit remains within allowed bounds
-	diff := int64(parent.GasLimit) - int64(header.GasLimit)
-	if diff < 0 {
-		diff *= -1
+	// Verify that the gas limit remains within allowed bounds. The distance is taken in uint64:
+	// a parent limit above 2^63-1 (only the unvalidated header a client is created with can have
+	// one) turns negative in an int64 and made far-away limits look close.
+	var diff uint64
+	if parent.GasLimit > header.GasLimit {
+		diff = parent.GasLimit - header.GasLimit
+	} else {
+		diff = header.GasLimit - parent.GasLimit
 	}
 	limit := parent.GasLimit / gasLimitBoundDivisor
 
-	if uint64(diff) >= limit || header.GasLimit < params.MinGasLimit {
+	if diff >= limit || header.GasLimit < params.MinGasLimit {
 		return fmt.Errorf("invalid gas limit: have %d, want %d += %d", header.GasLimit, parent.GasLimit, limit)
 
 	}
